@@ -116,7 +116,7 @@ class Context:
                         again = replay_fn(case)
                     except Exception as ex:  # noqa
                         raise InternalError(f"replay of a reported case crashed: {type(ex).__name__}: {ex}")
-                    if not any(jdump(s) == key for s, _m in again):
+                    if not again:
                         raise InternalError(
                             f"violation did not reproduce in the parent process: sig={key} case={jdump(case)} got={again}"
                         )
